@@ -446,6 +446,16 @@ def gen_iterate(seed: int) -> str:
         lines.append("Signal cur = c.read();")
         lines.append(f"Signal out = cur * {rng.randint(2, 5)};")
         cur = "cur"
+    elif shape < 0.52:
+        # a comparison reading the cell, declared before the write statement (the first recorded read is not arithmetic)
+        lines.append(f"Signal big = {rng.choice(['c.read() > ' + str(rng.randint(1, 9)), '(c.read() >= ' + str(rng.randint(1, 9)) + ') : 1'])};")
+    elif shape < 0.62:
+        # (an entity condition reading the cell would be the third kind of non-arithmetic reader; the iteration check
+        # traces every observation as if it were the cell, so a 0/1 enable trace is not generated here)
+        lines.append(f"Signal small = c.read() < {rng.randint(1, 9)};")
+    elif shape < 0.7:
+        # a plain alias of the cell before the write statement
+        lines.append("Signal al = c.read();")
     for k in range(steps):
         op = rng.choice(["+", "-", "*", "%", "XOR", "AND", "OR", "/"])
         if op in ("%", "/"):
@@ -464,6 +474,8 @@ def gen_iterate(seed: int) -> str:
         cur = f"({cur} + 1)"
     lines.append(f"c.write({cur});")
     lines.append("Signal q = c.read();")
+    if rng.random() < 0.2:
+        lines.append(f"Signal late = c.read() {rng.choice(['>', '<', '!='])} {rng.randint(1, 9)};")
     return "\n".join(lines) + "\n"
 
 
@@ -474,6 +486,9 @@ def gen_latch(seed: int) -> str:
     lines.append(f'Memory l: "{t}";')
     form = rng.random()
     x = names[0][0]
+    if len(names) > 1 and rng.random() < 0.5:
+        # the cell's type coincides with the type of the set's or of the reset's operand (signal remapping paths)
+        lines[-1] = f'Memory l: "{rng.choice([names[0][1], names[1][1]])}";'
     if form < 0.4:      # comparisons on one shared input (hysteresis)
         lo, hi = sorted(rng.sample(range(-5, 12), 2))
         if rng.random() < 0.3:
@@ -1095,8 +1110,36 @@ def gen_untyped(seed: int) -> str:
         for i in range(0, n - 1, 2):
             lines.append(f"Signal s{i} = (u{i} {rng.choice(['+', '-', '*'])} u{i + 1});")
         return "\n".join(lines) + "\n"
+    if prof < 0.45:
+        # untyped values of different origins (literal, int literal as a Signal argument, parenthesised int expression
+        # or int literal as the left operand) that meet on one wire as members of a bundle
+        ta = rng.choice(["signal-A", "signal-B", "signal-X", "signal-1"])
+        lines = [f'Signal a = ("{ta}", {rng.randint(2, 9)});', "func f(Signal p) {", f"    return p {rng.choice(['*', '+', '-'])} a;", "}"]
+        members = []
+        for i in range(rng.randint(2, 5)):
+            k = rng.randint(2, 9)
+            form = rng.choice(["lit", "call", "paren", "left", "lit"])
+            if form in ("paren", "left") and any(" a;" in l and l.startswith("Signal u") for l in lines):
+                form = "call"   # a second value with a's type would be a duplicate member of the bundle
+            if form == "call" and any("= f(" in l for l in lines):
+                form = "lit"    # two results of f carry the same implicit type: also a duplicate member
+            if form == "lit":
+                lines.append(f"Signal u{i} = {k};")
+            elif form == "call":
+                lines.append(f"Signal u{i} = f({k});")
+            elif form == "paren":
+                lines.append(f"Signal u{i} = ({k} + {rng.randint(1, 5)}) {rng.choice(['*', '+'])} a;")
+            else:
+                lines.append(f"Signal u{i} = {k} {rng.choice(['*', '+', '-'])} a;")
+            members.append(f"u{i}")
+        if rng.random() < 0.4 and not any(" a;" in l and l.startswith("Signal u") for l in lines):
+            # (`k OP a` is given a's type by the analyzer: together with `a` itself it would be a duplicate member)
+            members.insert(rng.randrange(len(members) + 1), "a")
+        lines.append("Bundle b = { " + ", ".join(members) + " };")
+        lines.append(f"Bundle d = b {rng.choice(['*', '+', '-'])} {rng.randint(2, 5)};")
+        return "\n".join(lines) + "\n"
     g = ScalarGen(rng, share=0.2, max_depth=2, typed_bias=0.35)
-    if prof < 0.6:
+    if prof < 0.7:
         # the program explicitly uses the first letters / digits the allocator would pick
         g.free_types = ["signal-C", "signal-B", "signal-A", "signal-1", "signal-0"][::-1] + g.free_types
         g.typed_bias = 0.6
@@ -1115,8 +1158,11 @@ def violation_snippet(rule: str, rng: random.Random, k: int):
     """(prelude statements that are themselves valid, the violating statement) using fresh names z<k>_*"""
     z = f"z{k}"
     pre, bad = [], ""
+    v = rng.randrange(6)   # which syntactic shape of the rule (a rule broken only in one context must still be hit)
     if rule == "undef_var":
-        bad = f"Signal {z}_a = nosuchvar{k} + 1;"
+        bad = [f"Signal {z}_a = nosuchvar{k} + 1;",
+               f'Bundle {z}_a = {{ ("iron-plate", 1), nosuchvar{k} }};',
+               f'Signal {z}_a = (("signal-A", 2) > nosuchvar{k}) : 1;'][v % 3]
     elif rule == "undef_func":
         bad = f"Signal {z}_a = nosuchfunc{k}(1);"
     elif rule == "undef_mem":
@@ -1125,7 +1171,8 @@ def violation_snippet(rule: str, rng: random.Random, k: int):
         bad = f"nosuchent{k}.enable = 1;"
     elif rule == "redefine":
         pre = [f'Signal {z}_a = ("signal-A", 1);']
-        bad = f'Signal {z}_a = ("signal-B", 2);'
+        bad = [f'Signal {z}_a = ("signal-B", 2);', f"int {z}_a = 3;", f'Bundle {z}_a = {{ ("iron-plate", 1) }};',
+               f'Memory {z}_a: "signal-B";'][v % 4]
     elif rule == "assign_immutable":
         pre = [f'Signal {z}_a = ("signal-A", 1);']
         bad = f"{z}_a = 5;"
@@ -1148,7 +1195,7 @@ def violation_snippet(rule: str, rng: random.Random, k: int):
         bad = f"for {z}_i in 0..3 {{ {z}_i = 5; }}"
     elif rule == "arity":
         pre = [f"func {z}_f(Signal s, int n) {{", "    return s + n;", "}", f'Signal {z}_a = ("signal-A", 1);']
-        bad = f"Signal {z}_r = {z}_f({z}_a);"
+        bad = [f"Signal {z}_r = {z}_f({z}_a);", f"Signal {z}_r = {z}_f({z}_a, 2, 3);", f"Signal {z}_r = {z}_f() + 1;"][v % 3]
     elif rule == "recursion":
         pre = [f"func {z}_f(Signal s) {{", f"    return {z}_f(s) + 1;", "}", f'Signal {z}_a = ("signal-A", 1);']
         bad = f"Signal {z}_r = {z}_f({z}_a);"
@@ -1157,13 +1204,21 @@ def violation_snippet(rule: str, rng: random.Random, k: int):
                f'Signal {z}_a = ("signal-A", 1);']
         bad = f"Signal {z}_r = {z}_g({z}_a);"
     elif rule == "bundle_dup":
-        bad = f'Bundle {z}_b = {{ ("iron-plate", 1), ("iron-plate", 2) }};'
+        # flat, through a typed variable, and every order of nested / direct members
+        pre = [f'Signal {z}_p = ("iron-plate", 1);', f'Bundle {z}_base = {{ {z}_p, ("coal", 2) }};',
+               f'Bundle {z}_other = {{ ("coal", 5), ("wood", 6) }};']
+        bad = [f'Bundle {z}_b = {{ ("iron-plate", 1), ("iron-plate", 2) }};',
+               f'Bundle {z}_b = {{ {z}_p, ("iron-plate", 2) }};',
+               f'Bundle {z}_b = {{ {z}_base, ("iron-plate", 3) }};',
+               f'Bundle {z}_b = {{ ("coal", 3), {z}_base }};',
+               f'Bundle {z}_b = {{ {z}_base, {z}_other }};',
+               f'Bundle {z}_b = {{ {z}_base, ("wood", 1), {z}_p }};'][v]
     elif rule == "bundle_op_bundle":
         pre = [f'Bundle {z}_b = {{ ("iron-plate", 1) }};', f'Bundle {z}_c = {{ ("copper-plate", 2) }};']
-        bad = f"Bundle {z}_d = {z}_b + {z}_c;"
+        bad = [f"Bundle {z}_d = {z}_b + {z}_c;", f"Bundle {z}_d = {z}_b * {z}_c;", f"Bundle {z}_d = ({z}_b * 2) - {z}_c;"][v % 3]
     elif rule == "bare_bundle_cmp":
         pre = [f'Bundle {z}_b = {{ ("iron-plate", 1), ("coal", 3) }};']
-        bad = f"Signal {z}_s = {z}_b > 3;"
+        bad = [f"Signal {z}_s = {z}_b > 3;", f"Signal {z}_s = {z}_b == 1;", f"Signal {z}_s = ({z}_b * 2) < 7;"][v % 3]
     elif rule == "select_absent":
         pre = [f'Bundle {z}_b = {{ ("iron-plate", 1), ("coal", 3) }};']
         bad = f'Signal {z}_s = {z}_b["wood"];'
